@@ -255,6 +255,35 @@ fn check_prog(rep: &mut Rep, ctx: &Ctx, rng: &mut impl rand::RngCore, p: &Prog) 
                 continue;
             }
         }
+        // the same graph with every other constant held as a plain integer node (Node::Constant - the form graphs
+        // have before the Montgomery conversion; it cannot be stored, only evaluated)
+        if k == 0 {
+            let mut flip = false;
+            let plain: Vec<Node> = zk_nodes
+                .iter()
+                .zip(p.nodes.iter())
+                .map(|(z, r)| match r {
+                    RNode::Const(c) => {
+                        flip = !flip;
+                        if flip { Node::Constant(crate::props::c19::big_to_u256(c)) } else { *z }
+                    }
+                    _ => *z,
+                })
+                .collect();
+            if plain != zk_nodes {
+                rep.ev();
+                match catch(|| graph::evaluate(&plain, &uin, &p.outputs)) {
+                    Ok(v) => {
+                        let g: Vec<BigUint> = v.iter().map(fr_to_big).collect();
+                        if g != want {
+                            rep.violation(format!("{sig_prefix}:evaluate(plain-integer-constants):differs-from-reference"), json!({"prog": describe(p), "expected": want.iter().take(10).map(|x| x.to_string()).collect::<Vec<_>>()}));
+                        }
+                    }
+                    Err(pn) => rep.violation(format!("{sig_prefix}:evaluate(plain-integer-constants):panic:{}", pn.file()), json!({"panic": pn.msg, "at": pn.loc, "prog": describe(p)})),
+                }
+                rep.stratum(format!("plain-integer-constants|{}", p.shape));
+            }
+        }
         if bad {
             // locate the first diverging node and re-evaluate that operator in isolation
             let all: Vec<usize> = (0..p.nodes.len()).collect();
@@ -285,7 +314,7 @@ fn check_prog(rep: &mut Rep, ctx: &Ctx, rng: &mut impl rand::RngCore, p: &Prog) 
 }
 
 pub fn run(rep: &mut Rep) {
-    rep.rule = "random well-formed graphs: DAGs with backward references over {Input, MontConstant, 19 binary operators, Neg, TernCond}, 1..300 nodes (to 5000 in thorough), output lists with repeats, 0..4 named input vectors at arbitrary non-overlapping offsets (position 0 = constant 1); three layouts reported separately (inputs-first and constants-first = canonical, scattered Input nodes); each graph: serialize -> deserialize equality, calc_witness on the bytes with shuffled named inputs and graph::evaluate on the in-memory graph, 3 assignments each (boundary-heavy and random), compared with the big-integer reference interpreter. distinct_nontrivial = distinct (layout, size class, #named inputs, #operators) and (layout, operator used) keys".into();
+    rep.rule = "random well-formed graphs: DAGs with backward references over {Input, MontConstant, 19 binary operators, Neg, TernCond}, 1..300 nodes (to 5000 in thorough), output lists with repeats, 0..4 named input vectors at arbitrary non-overlapping offsets (position 0 = constant 1); three layouts reported separately (inputs-first and constants-first = canonical, scattered Input nodes); each graph: serialize -> deserialize equality, calc_witness on the bytes with shuffled named inputs and graph::evaluate on the in-memory graph (also with constants held as plain integer nodes), 3 assignments each (boundary-heavy and random), compared with the big-integer reference interpreter. distinct_nontrivial = distinct (layout, size class, #named inputs, #operators) and (layout, operator used) keys".into();
     rep.assumptions = vec!["reference interpreter = circomref semantics applied node by node".into()];
     let thorough = rep.thorough();
     let nprogs = if thorough { 400_000 } else { 24_000 };
